@@ -8,7 +8,7 @@ VARIABLES kind, x, geo, tags, opt, stage, pred
 vars == <<kind, x, geo, tags, opt, stage, pred>>
 
 \* geometry: [cols, colors]; row length = cols * colors
-Geos == {g \in [cols : 1..MaxRowLen, colors : 1..2] : g.cols * g.colors <= MaxRowLen}
+Geos == {g \in [cols : 1..MaxRowLen, colors : 1..4] : g.cols * g.colors <= MaxRowLen}
 RowLen(g) == g.cols * g.colors
 
 Init == /\ kind \in {"png", "tiff", "hex", "a85", "chain", "err"}
